@@ -40,6 +40,7 @@ type Input struct {
 	DynamicSeq *DynamicSeqIn `json:"dynamicseq,omitempty"`
 	ProposeSeq *ProposeSeqIn `json:"proposeseq,omitempty"`
 	BidSeq     *BidSeqIn     `json:"bidseq,omitempty"` // p10_bids_test.go: one builder-bid strategy, several auctions
+	AggSel     *AggSelIn     `json:"aggsel,omitempty"` // p11_aggsel_test.go: aggregator selection over the duties' committee lengths
 	Tags       []string      `json:"tags,omitempty"`
 }
 
@@ -137,6 +138,8 @@ func runInput(t *testing.T, in Input) result {
 		return runProposeSeq(t, in.ProposeSeq)
 	case "bidseq":
 		return runBidSeq(t, in.BidSeq)
+	case "aggsel":
+		return runAggSel(t, in.AggSel)
 	}
 	t.Fatalf("unknown path %q", in.Path)
 	return result{}
@@ -168,6 +171,10 @@ func genInput(r *Rand, k int) Input {
 		}
 		return Input{Path: "head", Head: genHead(r)}
 	case 6:
+		// one of three: aggregator selection over committee lengths
+		if (k/8)%3 == 2 {
+			return Input{Path: "aggsel", AggSel: genAggSel(r)}
+		}
 		return Input{Path: "errbody", ErrBody: genErrBody(r)}
 	default:
 		if (k/8)%2 != 0 {
@@ -180,9 +187,9 @@ func genInput(r *Rand, k int) Input {
 func TestC16(t *testing.T) {
 	setup()
 	col := NewCollector("C16", "Check.C16",
-		"one case = one input of one of eight paths (propose, relays, graffiti, config, duties, head, errbody, dynamic) or one session of one service over providers scripted call by call (headseq, dynamicseq, proposeseq, bidseq), run on the real code with recover(); "+
+		"one case = one input of one of nine paths (propose, relays, graffiti, config, duties, head, errbody, dynamic, aggsel) or one session of one service over providers scripted call by call (headseq, dynamicseq, proposeseq, bidseq), run on the real code with recover(); "+
 			"non-trivial = the input carries the unexpected content of its path (blinded without auction result, unusable relay, {{CLIENT}} template, null/malformed config entry, "+
-			"duplicate/oversize/out-of-range duty, nil-bearing or unknown-version block, null/real failure entry, blank/CRLF/empty/missing file; "+
+			"duplicate/oversize/out-of-range duty, nil-bearing or unknown-version block, null/real failure entry, blank/CRLF/empty/missing file, a committee shorter than TARGET_AGGREGATORS_PER_COMMITTEE or a failing slot signer; "+
 			"for the sessions headseq and dynamicseq: a script whose answers differ from call to call, fail, or carry nothing; for bidseq: a relay with a public key whose bid reaches the signature check); distinct by input text")
 	n := EnvInt("VERIF_N", 1600)
 	var ins []Input
